@@ -303,7 +303,13 @@ def run(case):
                 if any(tk in s for tk in gone for n, s in w.model.items() if n != gn):
                     out.nontrivial = True
                 w.model[gn] -= gone
-            r = sut(ds.remove, pat + (w.garg(gn, op[5]),))
+            garg = w.garg(gn, op[5])
+            if op[5] == 4:
+                # a Graph of another store that has the name and triples of its own: it only says where to remove from
+                garg = Graph(identifier=w.ident(gn))
+                garg.add(w.t([0, 0, 0]))
+                garg.add(w.t([1, 0, 1]))
+            r = sut(ds.remove, pat + (garg,))
         elif name == "graph":
             gn = w.gname(op[1])
             if w.cfg == "cg":
@@ -387,7 +393,7 @@ def strategy(tier):
         st.tuples(st.just("iadd"), st.lists(st.tuples(si, pi, oi, st.integers(0, 11)).map(list), max_size=3)),
         st.tuples(st.just("rm3"), wsi, wpi, woi),
         st.tuples(st.just("rm4"), wsi, wpi, woi, gi, how),
-        st.tuples(st.just("rm4"), si, pi, oi, gi, how),
+        st.tuples(st.just("rm4"), si, pi, oi, gi, st.integers(0, 4)),
         st.tuples(st.just("graph"), gi, how),
         st.tuples(st.just("graph_none")),
         st.tuples(st.just("rmgraph"), st.integers(0, 4), how),
